@@ -68,7 +68,7 @@ func loadWithHarness(pkgRel string, files []string) (*loaded, error) {
 			overlay[v] = src
 			virt[v] = real
 		}
-		cfg := &packages.Config{Mode: packages.LoadAllSyntax, Dir: opt.repo, Overlay: overlay,
+		cfg := &packages.Config{Mode: packages.LoadAllSyntax, Dir: opt.repo, Overlay: overlay, BuildFlags: []string{"-tags=verif"},
 			Env: append(os.Environ(), "GOFLAGS=-mod=mod", "GOPROXY=off")}
 		pat := "./" + pkgRel
 		if pkgRel == "." || pkgRel == "" {
